@@ -68,8 +68,6 @@ def drive(rep, tier, seed):
         plan = [("operand", a), ("operand", b)]
         bzero = b.get("v") == "0" or b.get("n") == "0"
         for op in EXACT_OPS:
-            if op == "%" and bzero:
-                continue    # % by zero: the property leaves it open (C14 judges the crash)
             steps.append({"src": "aa %s bb" % op})
             plan.append(("bin", op, a, b))
         k = rng.choice([-3, -2, -1, 0, 1, 2, 3, 5])
